@@ -57,6 +57,20 @@ Theorem C12_one_file_per_export_path export ts ix es content :
   table_functional content es.
 Proof. exact (table_functional_of_distinct_paths export ts ix es content). Qed.
 
+(** Once an export image has its declared length it keeps it in every continuation of the run
+    (every [set_len] sets the declared length, every write stays inside it, nothing truncates) ... *)
+Theorem C12_declared_length_is_kept content es f0 s s' e i :
+  table_functional content es -> sreach s s' -> SI content es f0 (s_fs s) -> Forall (pgood content es) (s_pool s) ->
+  owner es (s_fs s) i e -> length (fs_content (s_fs s) i) = N.to_nat (e_len e) ->
+  owner es (s_fs s') i e /\ length (fs_content (s_fs s') i) = N.to_nat (e_len e).
+Proof. exact (sized_stable content es f0 s s' e i). Qed.
+
+(** ... and in every piece program every write into a file is preceded, with only successful
+    answers in between, by [set_len] on that file (to the declared length, by [good]): so a file
+    that has received a piece has exactly the declared length. *)
+Theorem C12_write_preceded_by_set_len H pc : armed_ok None (solve_prog H pc).
+Proof. exact (solve_prog_write_order H pc). Qed.
+
 Print Assumptions C12_single_file_location.
 Print Assumptions C12_multi_file_location.
 Print Assumptions C12_dir_name_length.
@@ -65,3 +79,5 @@ Print Assumptions C12_subtrees_disjoint.
 Print Assumptions C12_resize_length.
 Print Assumptions C12_whole_run_creates_only_export_images.
 Print Assumptions C12_one_file_per_export_path.
+Print Assumptions C12_declared_length_is_kept.
+Print Assumptions C12_write_preceded_by_set_len.
